@@ -4,11 +4,20 @@ CONSTANT SubsOf <- MCSubs
 CONSTANT AliasSeq <- MCAlias
 CONSTANT Created <- MCCreated
 CONSTANT IsPublic <- MCIsPublic
+CONSTANT Squeeze <- MCSqueeze
+CONSTANT HexLike <- MCHexLike
+CONSTANT Msgs <- MCMsgs
 CONSTANT MaxDepth = 6
 CONSTANT Fixed = TRUE
+CONSTANT FallbackAll = FALSE
+CONSTANT ReloadSubs = TRUE
+CONSTANT PreferPrivate = TRUE
 CONSTRAINT DepthBound
 INVARIANT Consistent
 INVARIANT NoDangling
 INVARIANT Complete
 INVARIANT KeysOK
+INVARIANT QueryOK
+INVARIANT MsgOK
+INVARIANT LoadHoldsAll
 CHECK_DEADLOCK FALSE
